@@ -793,7 +793,7 @@ class Transaction:
                 amount_bytes = struct.pack("<q", txout.amount)
                 script_bytes = txout.script_pubkey.to_bytes()
                 hash_outputs += (
-                    amount_bytes + struct.pack("B", len(script_bytes)) + script_bytes
+                    amount_bytes + encode_varint(len(script_bytes)) + script_bytes
                 )
             hash_outputs = hashlib.sha256(
                 hashlib.sha256(hash_outputs).digest()
@@ -804,7 +804,7 @@ class Transaction:
             amount_bytes = struct.pack("<q", txout.amount)
             script_bytes = txout.script_pubkey.to_bytes()
             hash_outputs = (
-                amount_bytes + struct.pack("B", len(script_bytes)) + script_bytes
+                amount_bytes + encode_varint(len(script_bytes)) + script_bytes
             )
             hash_outputs = hashlib.sha256(
                 hashlib.sha256(hash_outputs).digest()
@@ -822,7 +822,7 @@ class Transaction:
         tx_for_signing += h_to_b(txin.txid)[::-1] + struct.pack("<I", txin.txout_index)
 
         # add tx script code
-        tx_for_signing += struct.pack("B", len(script.to_bytes()))
+        tx_for_signing += encode_varint(len(script.to_bytes()))
         tx_for_signing += script.to_bytes()
 
         # add txin amount
